@@ -699,7 +699,8 @@ class Interp:
         if op.get("need_local_name", True):
             pool2 = [c for c in pool if '"local_name"' in str(s.nodes[c].get("Labels", ""))]
             pool = pool2 or pool
-        if op.get("sibling_name") and any(s.children_cp(c) for c in pool):
+        if (op.get("sibling_name") or op.get("again")) and any(s.children_cp(c) for c in pool):
+            # steer to a port that already has sub-interfaces: a second, third ... child (again) or a refused namesake
             pool = [c for c in pool if s.children_cp(c)]
         cp = self.pick(pool, op["if"])
         info.update(parent=cp)
@@ -990,7 +991,8 @@ op_unpeer = st.fixed_dictionaries({"op": st.just("unpeer"), "k": _k, "h": _h})
 def op_add_child(names=_name_fresh, ids=_id_spec):
     return st.fixed_dictionaries({"op": st.just("add_child"), "if": _k, "name": names,
                                   "vlan": st.sampled_from(["100", "200", "300", "400"]), "id": ids, "h": _h,
-                                  "sibling_name": st.sampled_from([False, False, False, True])})
+                                  "sibling_name": st.sampled_from([False] * 4 + [True]),
+                                  "again": st.sampled_from([False, False, True])})
 
 
 op_remove_child = st.fixed_dictionaries({"op": st.just("remove_child"), "k": _k, "h": _h})
